@@ -133,7 +133,7 @@ func (s *Store) finish(k Key, old *Obj, neu map[string]any, applied map[string]b
 	if changed {
 		m["resourceVersion"] = s.nextRV()
 	}
-	no := &Obj{Content: neu, Applied: old.Applied, Inc: old.Inc, Legacy: old.Legacy}
+	no := &Obj{Content: neu, Applied: old.Applied, Inc: old.Inc, Legacy: old.Legacy, Prev: old.Content}
 	if applied != nil {
 		no.Applied = applied
 	}
@@ -567,7 +567,7 @@ func (s *Store) Delete(k Key, o DeleteOpts) *apierrors.StatusError {
 		return nil
 	}
 	c := deepCopy(old.Content)
-	s.Objs[k] = &Obj{Content: c, Applied: old.Applied, Inc: old.Inc, Legacy: old.Legacy}
+	s.Objs[k] = &Obj{Content: c, Applied: old.Applied, Inc: old.Inc, Legacy: old.Legacy, Prev: old.Content}
 	m := meta(c)
 	l := make([]any, len(fin))
 	for i, f := range fin {
